@@ -1,5 +1,6 @@
 (* Dispatcher for C16: run the detector model (rationals) on an encoded case. *)
-From LV Require Import Lib.Codec Model.Detector.
+From LV Require Import Lib.Codec Model.Detector Model.DetectorQE.
+From LV Require Model.Spectrum.
 Require Import ExtrOcamlBasic.
 
 (* 2-d array of rationals: nr nc then row-major n/d pairs *)
@@ -55,12 +56,42 @@ Definition padc : parser adc_args := i <- parrQ ;; g <- pgain ;; s <- popt pQ ;;
 Definition run_adc (a : adc_args) : list Z :=
   let '(i, g, s, w) := a in
   eresult (fun '(wn, dn) => (if wn : bool then 1 else 0) :: earrZ dn) (adc i g s w).
-(* one call of a history: tag 1 = collect_charge, tag 2 = collect_charge_bayer, tag 3 = adc; parsed and answered at once *)
+(* ---- every kind of efficiency: scalar | vector | Spectrum (unit code 0 m, 1 um, 2 nm, 3 angstrom; wave; values) ---- *)
+Definition pwunit : parser Spectrum.wunit :=
+  t <- pZ ;;
+  if t =? 0 then pret Spectrum.UM else if t =? 1 then pret Spectrum.UUm
+  else if t =? 2 then pret Spectrum.UNm else if t =? 3 then pret Spectrum.UAng else pfail.
+Definition pqeany : parser qeany :=
+  t <- pZ ;;
+  if t =? 0 then q <- pQ ;; pret (QEplain (@QScalar QcS q))
+  else if t =? 1 then l <- plist pQ ;; pret (QEplain (QVec (vec_of_list QcS l)))
+  else if t =? 2 then u <- pwunit ;; w <- plist pQ ;; v <- plist pQ ;;
+                      pret (QEspec (Spectrum.mkS w v u Spectrum.VNone))
+  else pfail.
+Definition collect_any_args := (imgrep QcS * list Qc * Spectrum.wunit * qeany)%type.
+Definition pcollect_any : parser collect_any_args :=
+  i <- pimg ;; w <- plist pQ ;; u <- pwunit ;; q <- pqeany ;; pret (i, w, u, q).
+Definition run_collect_any (a : collect_any_args) : list Z :=
+  let '(i, w, u, q) := a in eresult earrQ (collect_charge_any i w u q).
+Definition bayer_any_args := (imgrep QcS * list Qc * Spectrum.wunit * qeany * qeany * qeany * list Z * Z * bool)%type.
+Definition pbayer_any : parser bayer_any_args :=
+  i <- pimg ;; w <- plist pQ ;; u <- pwunit ;; qr <- pqeany ;; qg <- pqeany ;; qb <- pqeany ;; pat <- plist pZ ;;
+  os <- pZ ;; fl <- pbool ;; pret (i, w, u, qr, qg, qb, pat, os, fl).
+Definition run_bayer_any (a : bayer_any_args) : list Z :=
+  let '(i, w, u, qr, qg, qb, pat, os, fl) := a in
+  if (os <? 1) || (Z.of_nat (length pat) <? 1) then emalformed else
+  if fl : bool then eresult earrQ (collect_charge_bayer_any i w u qr qg qb pat os)
+  else eresult (fun '(r, g, b) => earrQ r ++ earrQ g ++ earrQ b)
+               (collect_charge_bayer_channels_any i w u qr qg qb pat os).
+
+(* one call of a history: tag = the op code of the single call (1, 2, 3, 8, 9); parsed and answered at once *)
 Definition pcall : parser (list Z) :=
   t <- pZ ;;
   if t =? 1 then a <- pcollect ;; pret (run_collect a)
   else if t =? 2 then a <- pbayer ;; pret (run_bayer a)
   else if t =? 3 then a <- padc ;; pret (run_adc a)
+  else if t =? 8 then a <- pcollect_any ;; pret (run_collect_any a)
+  else if t =? 9 then a <- pbayer_any ;; pret (run_bayer_any a)
   else pfail.
 
 Definition run_c16 (inp : list Z) : list Z :=
@@ -86,6 +117,14 @@ Definition run_c16 (inp : list Z) : list Z :=
   | 3 :: rest =>   (* adc(img, gain, saturation_capacity, warn_saturate) *)
     match pall padc rest with
     | Some a => run_adc a
+    | None => emalformed end
+  | 8 :: rest =>   (* collect_charge with any kind of efficiency, the cube's wavelengths and their unit *)
+    match pall pcollect_any rest with
+    | Some a => run_collect_any a
+    | None => emalformed end
+  | 9 :: rest =>   (* collect_charge_bayer with any kind of efficiency *)
+    match pall pbayer_any rest with
+    | Some a => run_bayer_any a
     | None => emalformed end
   | 4 :: rest =>   (* format_bayer_string *)
     match pall (plist pZ) rest with
